@@ -14113,3 +14113,426 @@ func ruleSupplyFollowsBalance(c *Ctx) {
 	}
 	c.Floor("supply-follows-balance.functions", n, 1)
 }
+
+// ruleCompoundFromValueCopies (C12, C13): a compound stack item owns its element slice; CONVERT between Array and Struct
+// makes a new item with the same elements, not a second item over the same backing array (APPEND to one would show, or
+// not show, in the other depending on capacity; REVERSEITEMS and CLEARITEMS of one would change the other, and the
+// reference counter counts the elements once for two holders). In package stackitem no compound constructor is given
+// the `value` field of an existing item bare.
+func ruleCompoundFromValueCopies(c *Ctx) {
+	pk := c.P.Pkg("pkg/vm/stackitem")
+	if pk == nil {
+		c.Lost("compound-from-value-copies.anchor", "package stackitem not found")
+		return
+	}
+	info := pk.TypesInfo
+	n := 0
+	for _, fd := range c.P.AllFuncDecls() {
+		if fd.Pkg != pk || fd.Decl.Body == nil {
+			continue
+		}
+		ast.Inspect(fd.Decl.Body, func(x ast.Node) bool {
+			call, ok := x.(*ast.CallExpr)
+			if !ok || len(call.Args) != 1 {
+				return true
+			}
+			fn := calleeFunc(info, call)
+			if fn == nil || fn.Pkg() != pk.Types || (fn.Name() != "NewArray" && fn.Name() != "NewStruct" && fn.Name() != "NewMapWithValue") {
+				return true
+			}
+			arg := ast.Unparen(resolveLocalOnce(info, fd.Decl.Body, call.Args[0]))
+			mentionsValue := false
+			ast.Inspect(arg, func(y ast.Node) bool {
+				if se, ok := y.(*ast.SelectorExpr); ok && se.Sel.Name == "value" {
+					if v, ok := info.ObjectOf(se.Sel).(*types.Var); ok && v.IsField() {
+						mentionsValue = true
+					}
+				}
+				return true
+			})
+			if !mentionsValue {
+				return true
+			}
+			n++
+			key := fmt.Sprintf("compound-from-value-copies:%s#%d", shortSym(FuncKey(fd.Obj)), n)
+			if se, ok := arg.(*ast.SelectorExpr); ok && se.Sel.Name == "value" {
+				c.Fail(key, c.P.Pos(call.Pos()), fmt.Sprintf("%s builds a new compound item over `%s`, the element slice of an existing item: the two items share one backing array - what SETITEM, REVERSEITEMS or CLEARITEMS does to one shows in the other, APPEND shows or not depending on capacity, and the reference counter holds the elements once for two holders", shortSym(FuncKey(fd.Obj)), types.ExprString(arg)))
+			} else {
+				c.OK(key, c.P.Pos(call.Pos()), "the new item gets its own slice")
+			}
+			return true
+		})
+	}
+	c.Floor("compound-from-value-copies.sites", n, 2)
+}
+
+// ruleNativeCallerIsSelf (C15, C16): when a native contract calls a deployed contract, the calling script hash the callee
+// sees - and CheckWitness accepts without a signature - is the native's own. CallFromNative is given the receiver's
+// Hash as the caller, except at the tabled sites.
+var nativeCallerExceptions = map[string]string{
+	"pkg/core/native.(*Policy).recoverFundDeferrable": "the committee's fund recovery acts for the blocked account by design (the token must see the account as the caller of balanceOf/transfer)",
+}
+
+func ruleNativeCallerIsSelf(c *Ctx) {
+	pk := c.P.Pkg("pkg/core/native")
+	if pk == nil {
+		c.Lost("native-caller-is-self.anchor", "package native not found")
+		return
+	}
+	info := pk.TypesInfo
+	n := 0
+	for _, fd := range c.P.AllFuncDecls() {
+		if fd.Pkg != pk || fd.Decl.Body == nil || fd.Decl.Recv == nil || len(fd.Decl.Recv.List[0].Names) == 0 {
+			continue
+		}
+		recv := info.ObjectOf(fd.Decl.Recv.List[0].Names[0])
+		ast.Inspect(fd.Decl.Body, func(x ast.Node) bool {
+			call, ok := x.(*ast.CallExpr)
+			if !ok || len(call.Args) < 2 {
+				return true
+			}
+			fn := calleeFunc(info, call)
+			if fn == nil || fn.Name() != "CallFromNative" {
+				return true
+			}
+			n++
+			key := fmt.Sprintf("native-caller-is-self:%s#%d", shortSym(FuncKey(fd.Obj)), n)
+			arg := ast.Unparen(resolveLocalOnce(info, fd.Decl.Body, call.Args[1]))
+			self := false
+			if se, ok := arg.(*ast.SelectorExpr); ok && se.Sel.Name == "Hash" {
+				if id, ok := ast.Unparen(se.X).(*ast.Ident); ok && info.ObjectOf(id) == recv {
+					self = true
+				}
+			}
+			switch {
+			case self:
+				c.OK(key, c.P.Pos(call.Pos()), "the callee sees the native contract as its caller")
+			case nativeCallerExceptions[FuncKey(fd.Obj)] != "":
+				c.OK(key, c.P.Pos(call.Pos()), "tabled: "+nativeCallerExceptions[FuncKey(fd.Obj)])
+			default:
+				c.Fail(key, c.P.Pos(call.Pos()), fmt.Sprintf("%s calls a contract with `%s` as the calling script hash instead of the native's own: inside the callee CheckWitness of that hash holds without a signature and without that account having made the call (the calling-hash shortcut), and CalledByEntry / GetCallingScriptHash answer for somebody else", FuncKey(fd.Obj), types.ExprString(arg)))
+			}
+			return true
+		})
+	}
+	c.Floor("native-caller-is-self.calls", n, 5)
+}
+
+// ruleTimerUnits (C19): dBFT counts time in nanoseconds, blocks carry milliseconds. Everything the service hands to
+// dbft.Start / dbft.Reset as the time of the last block is a millisecond value multiplied by nsInMs; a bare
+// millisecond value is a time a million times closer to the epoch, and the timer of the next round fires at once.
+func ruleTimerUnits(c *Ctx) {
+	pk := c.P.Pkg("pkg/consensus")
+	if pk == nil {
+		c.Lost("timer-units.anchor", "package consensus not found")
+		return
+	}
+	info := pk.TypesInfo
+	n := 0
+	for _, fd := range c.P.AllFuncDecls() {
+		if fd.Pkg != pk || fd.Decl.Body == nil {
+			continue
+		}
+		ast.Inspect(fd.Decl.Body, func(x ast.Node) bool {
+			call, ok := x.(*ast.CallExpr)
+			if !ok || len(call.Args) != 1 {
+				return true
+			}
+			se, ok := ast.Unparen(call.Fun).(*ast.SelectorExpr)
+			if !ok || (se.Sel.Name != "Start" && se.Sel.Name != "Reset") || !strings.HasSuffix(types.ExprString(se.X), ".dbft") {
+				return true
+			}
+			n++
+			key := fmt.Sprintf("timer-units:%s.%s", fd.Decl.Name.Name, se.Sel.Name)
+			arg := resolveLocalOnce(info, fd.Decl.Body, call.Args[0])
+			scaled := false
+			ast.Inspect(arg, func(y ast.Node) bool {
+				if id, ok := y.(*ast.Ident); ok && id.Name == "nsInMs" {
+					if _, ok := info.ObjectOf(id).(*types.Const); ok {
+						scaled = true
+					}
+				}
+				return true
+			})
+			if scaled {
+				c.OK(key, c.P.Pos(call.Pos()), "the block time is handed to dBFT in nanoseconds")
+			} else {
+				c.Fail(key, c.P.Pos(call.Pos()), fmt.Sprintf("%s hands `%s` to dbft.%s without the nsInMs factor: dBFT counts nanoseconds, block timestamps are milliseconds - the time of the last block lies a million times closer to the epoch, the round's timer is due at once and the node proposes (or changes view) immediately after every block it gets from the network", fd.Decl.Name.Name, types.ExprString(arg), se.Sel.Name))
+			}
+			return true
+		})
+	}
+	c.Floor("timer-units.calls", n, 2)
+}
+
+// ruleSortedBeforeBinarySearch (C19): the server keeps the hashes the consensus service is waiting for in an atomic value
+// and looks every incoming transaction up by binary search. What is stored there is sorted by the comparison the search
+// uses (or empty): an unsorted list hides some of its members, the service never gets those transactions and the round
+// ends in a view change although every transaction of the proposal arrived.
+func ruleSortedBeforeBinarySearch(c *Ctx) {
+	pk := c.P.Pkg("pkg/network")
+	if pk == nil {
+		c.Lost("sorted-before-binary-search.anchor", "package network not found")
+		return
+	}
+	info := pk.TypesInfo
+	// fields whose loaded value is binary-searched
+	searched := map[types.Object]bool{}
+	for _, fd := range c.P.AllFuncDecls() {
+		if fd.Pkg != pk || fd.Decl.Body == nil {
+			continue
+		}
+		loaded := map[types.Object]types.Object{} // local -> field
+		ast.Inspect(fd.Decl.Body, func(x ast.Node) bool {
+			as, ok := x.(*ast.AssignStmt)
+			if ok && len(as.Lhs) == 1 && len(as.Rhs) == 1 {
+				if id, ok := as.Lhs[0].(*ast.Ident); ok {
+					r := ast.Unparen(as.Rhs[0])
+					if ta, ok := r.(*ast.TypeAssertExpr); ok {
+						r = ast.Unparen(ta.X)
+					}
+					if call, ok := r.(*ast.CallExpr); ok {
+						if se, ok := ast.Unparen(call.Fun).(*ast.SelectorExpr); ok && se.Sel.Name == "Load" {
+							if fs, ok := ast.Unparen(se.X).(*ast.SelectorExpr); ok {
+								loaded[info.ObjectOf(id)] = info.ObjectOf(fs.Sel)
+							}
+						}
+					} else if src, ok := r.(*ast.Ident); ok {
+						if f, ok := loaded[info.ObjectOf(src)]; ok {
+							loaded[info.ObjectOf(id)] = f
+						}
+					}
+				}
+			}
+			if vs, ok := x.(*ast.ValueSpec); ok && len(vs.Names) == 1 && len(vs.Values) == 1 {
+				r := ast.Unparen(vs.Values[0])
+				if ta, ok := r.(*ast.TypeAssertExpr); ok {
+					r = ast.Unparen(ta.X)
+				}
+				if call, ok := r.(*ast.CallExpr); ok {
+					if se, ok := ast.Unparen(call.Fun).(*ast.SelectorExpr); ok && se.Sel.Name == "Load" {
+						if fs, ok := ast.Unparen(se.X).(*ast.SelectorExpr); ok {
+							loaded[info.ObjectOf(vs.Names[0])] = info.ObjectOf(fs.Sel)
+						}
+					}
+				} else if src, ok := r.(*ast.Ident); ok {
+					if f, ok := loaded[info.ObjectOf(src)]; ok {
+						loaded[info.ObjectOf(vs.Names[0])] = f
+					}
+				}
+			}
+			if call, ok := x.(*ast.CallExpr); ok && strings.HasPrefix(types.ExprString(call.Fun), "slices.BinarySearch") && len(call.Args) > 0 {
+				if id, ok := ast.Unparen(call.Args[0]).(*ast.Ident); ok {
+					if f, ok := loaded[info.ObjectOf(id)]; ok {
+						searched[f] = true
+					}
+				}
+			}
+			return true
+		})
+	}
+	c.Floor("sorted-before-binary-search.searched fields", len(searched), 1)
+	n := 0
+	for _, fd := range c.P.AllFuncDecls() {
+		if fd.Pkg != pk || fd.Decl.Body == nil {
+			continue
+		}
+		ast.Inspect(fd.Decl.Body, func(x ast.Node) bool {
+			call, ok := x.(*ast.CallExpr)
+			if !ok || len(call.Args) != 1 {
+				return true
+			}
+			se, ok := ast.Unparen(call.Fun).(*ast.SelectorExpr)
+			if !ok || se.Sel.Name != "Store" {
+				return true
+			}
+			fs, ok := ast.Unparen(se.X).(*ast.SelectorExpr)
+			if !ok || !searched[info.ObjectOf(fs.Sel)] {
+				return true
+			}
+			n++
+			key := fmt.Sprintf("sorted-before-binary-search:%s.%s", fd.Decl.Name.Name, fs.Sel.Name)
+			good := false
+			why := types.ExprString(call.Args[0])
+			if id, ok := ast.Unparen(call.Args[0]).(*ast.Ident); ok {
+				o := info.ObjectOf(id)
+				// sorted earlier in the function, or declared without a value (empty)
+				ast.Inspect(fd.Decl.Body, func(y ast.Node) bool {
+					switch z := y.(type) {
+					case *ast.CallExpr:
+						if z.Pos() < call.Pos() && len(z.Args) > 0 && strings.HasPrefix(types.ExprString(z.Fun), "slices.Sort") {
+							if a, ok := ast.Unparen(z.Args[0]).(*ast.Ident); ok && info.ObjectOf(a) == o {
+								good = true
+							}
+						}
+					case *ast.ValueSpec:
+						for _, nm := range z.Names {
+							if info.ObjectOf(nm) == o && len(z.Values) == 0 {
+								good = true
+							}
+						}
+					}
+					return true
+				})
+			} else if isNilIdent(info, call.Args[0]) {
+				good = true
+			}
+			if good {
+				c.OK(key, c.P.Pos(call.Pos()), "what is stored for the binary search is sorted (or empty)")
+			} else {
+				c.Fail(key, c.P.Pos(call.Pos()), fmt.Sprintf("%s stores `%s` into Server.%s, which the transaction handler looks up by binary search, without sorting it: members of an unsorted list are not found, the consensus service is never handed those transactions and the round ends in a view change although the whole proposal arrived", fd.Decl.Name.Name, why, fs.Sel.Name))
+			}
+			return true
+		})
+	}
+	c.Floor("sorted-before-binary-search.stores", n, 2)
+}
+
+// ruleBudgetEveryElement (C13, C12): EQUAL on two structures pays one unit of the comparable-size budget for every pair
+// of elements it looks at (a byte string pays its length, inside equalsLimited), nested structures included: the budget
+// is what bounds the work, and a pair that is not charged is work that is not bounded - and an outcome (HALT instead of
+// FAULT) the other implementation does not reach. In the element loop of equalStruct every path from the top of an
+// iteration to the recursive call, and to the next iteration, passes a charge.
+func ruleBudgetEveryElement(c *Ctx) {
+	fd := c.P.Func("pkg/vm/stackitem", "Struct", "equalStruct")
+	if fd == nil {
+		c.Lost("budget-every-element.anchor", "Struct.equalStruct not found")
+		return
+	}
+	f := c.P.NewFuncCFG(fd)
+	info := fd.Pkg.TypesInfo
+	var budget types.Object
+	sig := fd.Obj.Type().(*types.Signature)
+	for i := 0; i < sig.Params().Len(); i++ {
+		if strings.Contains(strings.ToLower(sig.Params().At(i).Name()), "comparable") {
+			budget = sig.Params().At(i)
+		}
+	}
+	if budget == nil {
+		c.Lost("budget-every-element.shape", "equalStruct has no comparable-size budget parameter")
+		return
+	}
+	var charges, recs []site
+	for _, b := range f.G.Blocks {
+		if !b.Live {
+			continue
+		}
+		for i, nd := range b.Nodes {
+			inspectNoLit(nd, func(x ast.Node) bool {
+				switch y := x.(type) {
+				case *ast.IncDecStmt:
+					if st, ok := ast.Unparen(y.X).(*ast.StarExpr); ok && y.Tok == token.DEC {
+						if id, ok := ast.Unparen(st.X).(*ast.Ident); ok && info.ObjectOf(id) == budget {
+							charges = append(charges, site{b, i, nd, nil})
+						}
+					}
+				case *ast.CallExpr:
+					fn := calleeFunc(info, y)
+					if fn == nil {
+						return true
+					}
+					passes := false
+					for _, a := range y.Args {
+						if id, ok := ast.Unparen(a).(*ast.Ident); ok && info.ObjectOf(id) == budget {
+							passes = true
+						}
+					}
+					switch {
+					case fn == fd.Obj:
+						recs = append(recs, site{b, i, nd, y})
+					case passes:
+						charges = append(charges, site{b, i, nd, y}) // a callee that is handed the budget charges it itself
+					}
+				}
+				return true
+			})
+		}
+	}
+	var loop *Loop
+	for _, l := range f.Loops() {
+		l := l
+		if containsNode(l.Stmt, recs0(recs)) {
+			loop = &l
+		}
+	}
+	if loop == nil || len(recs) == 0 || len(charges) == 0 {
+		c.Lost("budget-every-element.shape", "equalStruct no longer recurses inside an element loop that charges the budget")
+		return
+	}
+	targets := append([]site{}, recs...)
+	targets = append(targets, site{loop.Head, 0, loop.Stmt, nil})
+	ok, path := f.mustBefore([]*cfg.Block{loop.Body}, targets, charges, nil)
+	if ok {
+		c.OK("budget-every-element", c.P.Pos(loop.Stmt.Pos()), "every pair of elements is charged before it is descended into or passed")
+	} else {
+		c.Fail("budget-every-element", c.P.Pos(loop.Stmt.Pos()), "Struct.equalStruct can descend into a pair of elements, or go on to the next pair, without charging the comparable-size budget ("+strings.Join(path, " -> ")+"): nested structures are compared for free, so a comparison the budget is meant to stop with a FAULT halts with an answer - another outcome than the specification's, and unbounded work")
+	}
+}
+
+func recs0(s []site) ast.Node {
+	if len(s) == 0 {
+		return nil
+	}
+	return s[0].node
+}
+
+// ruleOperandBackUnchanged (C13): an instruction that decides, after popping an operand, to leave it as it was puts the
+// same item back. Taking the operand's BigInt() and pushing NewBigInteger of it is not "unchanged": a ByteString or a
+// Boolean comes back as an Integer (ISTYPE, EQUAL and the size of the item differ), and an operand that has no integer
+// form - which the untouched path never asked for - faults. In execute no NewBigInteger is given the bare BigInt() of a
+// popped element.
+func ruleOperandBackUnchanged(c *Ctx) {
+	fd := c.P.Func("pkg/vm", "VM", "execute")
+	if fd == nil {
+		c.Lost("operand-back-unchanged.anchor", "VM.execute not found")
+		return
+	}
+	info := fd.Pkg.TypesInfo
+	n, bad := 0, 0
+	isPoppedBigInt := func(e ast.Expr) bool {
+		call, ok := ast.Unparen(e).(*ast.CallExpr)
+		if !ok || len(call.Args) != 0 {
+			return false
+		}
+		se, ok := ast.Unparen(call.Fun).(*ast.SelectorExpr)
+		if !ok || se.Sel.Name != "BigInt" {
+			return false
+		}
+		return strings.Contains(types.ExprString(se.X), "Pop()")
+	}
+	// locals are per arm: resolve within the enclosing case clause
+	var stack []ast.Node
+	ast.Inspect(fd.Decl.Body, func(x ast.Node) bool {
+		if x == nil {
+			stack = stack[:len(stack)-1]
+			return true
+		}
+		stack = append(stack, x)
+		call, ok := x.(*ast.CallExpr)
+		if !ok || len(call.Args) != 1 {
+			return true
+		}
+		fn := calleeFunc(info, call)
+		if fn == nil || fn.Name() != "NewBigInteger" {
+			return true
+		}
+		n++
+		var arm ast.Node = fd.Decl.Body
+		for i := len(stack) - 1; i >= 0; i-- {
+			if cc, ok := stack[i].(*ast.CaseClause); ok {
+				arm = cc
+				break
+			}
+		}
+		arg := resolveLocalOnce(info, arm, call.Args[0])
+		if isPoppedBigInt(arg) {
+			bad++
+			c.Fail(fmt.Sprintf("operand-back-unchanged#%d", bad), c.P.Pos(call.Pos()), fmt.Sprintf("execute pushes NewBigInteger(%s), the integer reading of an operand it has just popped, with nothing computed in between: an operand meant to be left as it was comes back as an Integer whatever it was (and faults when it has no integer form)", types.ExprString(call.Args[0])))
+		}
+		return true
+	})
+	if bad == 0 {
+		c.OK("operand-back-unchanged", c.P.Pos(fd.Decl.Pos()), fmt.Sprintf("none of the %d NewBigInteger calls of execute re-wraps a popped operand", n))
+	}
+	c.Floor("operand-back-unchanged.integer results in execute", n, 20)
+}
